@@ -76,7 +76,9 @@ def judge_outcome(ctx, case, r, full, what):
     roots = [r.tracedir] + ([r.tmpdir] if case["tmpdir"] else [])
     where = {}
     for t in range(nth):
-        want = norm_all(full[t])
+        if ("norm", t) not in full:
+            full[("norm", t)] = norm_all(full[t])      # decoded once per program, not once per fault run
+        want = full[("norm", t)]
         dirs = [c09.thread_dir(x, t) for x in roots]
         ppath = os.path.normpath(os.path.join(c09.thread_dir(primary_root, t), "stream.obs"))
         all_flushed = F.get(ppath, 0) == len(full[t])
@@ -144,7 +146,7 @@ def run(case, ctx):
         # a file size limit ("quota reached"): every write that would make a file longer than L bytes
         # fails with EFBIG after a partial write up to L; one run per limit around the sizes of this
         # program's own files
-        biggest = max(len(v) for v in full.values())
+        biggest = max(len(v) for k_, v in full.items() if isinstance(k_, int))
         limits = sorted({1, 8, 9, 64, 700, biggest // 2, biggest - 1} - {0, -1})
         limits = [L for L in limits if L < biggest]
         if ctx.tier == "quick":
